@@ -1132,6 +1132,14 @@ func verif_C11_mail_twice() {
 		return
 	}
 	verifObserve("c11twice", first, second, how, reps[2].code, reps[3].code)
+	if reps[3].code == 503 {
+		// a server that refuses a MAIL inside an open transaction as out of
+		// order (RFC 5321 allows that; C03's business) has not handed anything
+		// over: nothing to compare
+		verifAssert(be.find("Mail", "two@v") < 0, "C11.twice-refused-mail-backend-not-called")
+		verifReach("C11.twice-end")
+		return
+	}
 	verifAssert(reps[3].code == 250, "C11.twice-second-mail-accepted")
 	var got *MailOptions
 	n := 0
